@@ -11,7 +11,7 @@ def _c05_case(c):
 
 CONFIG = {
     "properties_file": "Properties/C05.v",
-    "proof_files": ["Base/Prelude.v", "Proofs/Verify.v", "Proofs/VerifyComplete.v", "Proofs/VerifyProxy.v"],
+    "proof_files": ["Base/Prelude.v", "Proofs/Verify.v", "Proofs/VerifyComplete.v", "Proofs/VerifyProxy.v", "Proofs/VerifyFuel.v"],
     "model_files": ["Generated/GC05.v", "Model/Verify.v"],
     "extract": "XC05.v",
     "ml_main": "c05_main.ml",
